@@ -15,9 +15,9 @@ namespace msggen {
 enum { G_ADDR = 0, G_ARG, G_CTOR, G_BOPEN, G_BCLOSE, G_FAULT /* world specific */ };
 static const char TAGS[] = "ifsbhtdScrmTFNI[]";
 
-struct GArg { char tag; rtosc_arg_t v; std::string s; std::vector<uint8_t> blob; bool null_blob = false; };
+struct GArg { char tag; rtosc_arg_t v; std::string s; std::vector<uint8_t> blob; bool null_blob = false; int rep = 1; };   // rep: the argument stands for rep equal arguments (an arg-val list may spell them as one range)
 struct GMsg { std::string addr; std::vector<GArg> args; int ctor = 1;
-    std::string types() const { std::string t; for (auto &a : args) t += a.tag; return t; } };
+    std::string types() const { std::string t; for (auto &a : args) for (int q = 0; q < a.rep; q++) t += a.tag; return t; } };
 struct GElem { bool is_bundle = false; GMsg msg; uint64_t tt = 0; std::vector<GElem> kids; };
 
 inline bool carries_value(char t) { return strchr("ifsbhtdScrm", t) != nullptr; }
@@ -62,7 +62,7 @@ inline std::vector<GElem> build(const sim::Plan &plan, size_t from = 0, size_t t
         case G_ADDR: { if (open >= 0 && nodes[open].kids.size() >= 8) break;
             Node n; n.b = false; n.tt = 0; n.parent = open; size_t len = (size_t)std::max<int64_t>(1, std::min<int64_t>(op.a[0], 64)); n.m.addr = "/" + printable((uint64_t)op.a[1], len - 1, true);
             nodes.push_back(n); int id = (int)nodes.size() - 1; if (open >= 0) nodes[open].kids.push_back(id); else roots.push_back(id); curmsg = id; break; }
-        case G_ARG: if (curmsg >= 0 && nodes[curmsg].m.args.size() < 40) { char tag = (char)op.a[0]; if (!strchr(TAGS, tag) || !tag) tag = 'i'; nodes[curmsg].m.args.push_back(make_arg(tag, op.a[1], (uint64_t)op.a[2])); } break;
+        case G_ARG: if (curmsg >= 0 && nodes[curmsg].m.args.size() < 40) { char tag = (char)op.a[0]; if (!strchr(TAGS, tag) || !tag) tag = 'i'; GArg ga = make_arg(tag, op.a[1], (uint64_t)op.a[2]); if (strchr("ifhdc", tag) && op.a[3] >= 2) ga.rep = (int)std::min<int64_t>(op.a[3], 9); nodes[curmsg].m.args.push_back(ga); } break;
         case G_CTOR: if (curmsg >= 0) nodes[curmsg].m.ctor = (int)(((op.a[0] % 3) + 3) % 3); break;
         default: break;
         }
@@ -76,7 +76,7 @@ inline std::vector<GElem> build(const sim::Plan &plan, size_t from = 0, size_t t
 struct ArgPack { std::string types; std::vector<rtosc_arg_t> args; };
 inline ArgPack pack(const GMsg &m) {
     ArgPack p; p.types = m.types();
-    for (auto &a : m.args) if (carries_value(a.tag)) { rtosc_arg_t v = a.v;
+    for (auto &a : m.args) if (carries_value(a.tag)) for (int q = 0; q < a.rep; q++) { rtosc_arg_t v = a.v;
         if (a.tag == 's' || a.tag == 'S') v.s = a.s.c_str();
         if (a.tag == 'b') { v.b.len = (int32_t)a.blob.size(); v.b.data = a.null_blob ? nullptr : (uint8_t *)(a.blob.empty() ? (const uint8_t *)"" : a.blob.data()); }
         p.args.push_back(v); }
@@ -103,7 +103,7 @@ inline void gen_message(sim::Rng &r, sim::Plan &p, int max_args, int max_len) {
     for (int i = 0; i < n; i++) {
         sim::Op o; o.kind = G_ARG; char tag = TAGS[r.below(sizeof TAGS - 1)];
         if (tag == ']' && depth == 0) tag = '['; if (tag == '[') depth++; if (tag == ']') depth--;
-        o.a[0] = tag; o.a[2] = (int64_t)r.below(1u << 30);
+        o.a[0] = tag; o.a[2] = (int64_t)r.below(1u << 30); if (strchr("ifhdc", tag) && r.chance(0.1)) o.a[3] = 2 + (int64_t)r.below(6);
         switch (tag) {
         case 'i': case 'c': case 'r': case 'f': case 'm': o.a[1] = r.chance(0.2) ? r.pick(std::vector<int64_t>{0, -1, 0x7fffffff, (int64_t)(int32_t)0x80000000, 0x7fc00001, 0xff800000LL}) : (int64_t)(int32_t)r.next(); break;
         case 'h': case 't': case 'd': o.a[1] = r.chance(0.2) ? r.pick(std::vector<int64_t>{0, 1, -1, INT64_MAX, INT64_MIN}) : (int64_t)r.next(); break;
@@ -124,7 +124,7 @@ inline std::string describe(const sim::Op &op) {
     char b[96];
     switch (op.kind) {
     case G_ADDR: snprintf(b, sizeof b, "addr(len=%lld,#%lld)", (long long)op.a[0], (long long)op.a[1]); break;
-    case G_ARG: if (strchr("sSb", (char)op.a[0])) snprintf(b, sizeof b, "arg(%c,len=%lld)", (char)op.a[0], (long long)op.a[1]); else if (carries_value((char)op.a[0])) snprintf(b, sizeof b, "arg(%c,%lld)", (char)op.a[0], (long long)op.a[1]); else snprintf(b, sizeof b, "arg(%c)", (char)op.a[0]); break;
+    case G_ARG: if (op.a[3] >= 2 && strchr("ifhdc", (char)op.a[0])) { snprintf(b, sizeof b, "arg(%lldx%c,%lld)", (long long)op.a[3], (char)op.a[0], (long long)op.a[1]); break; } if (strchr("sSb", (char)op.a[0])) snprintf(b, sizeof b, "arg(%c,len=%lld)", (char)op.a[0], (long long)op.a[1]); else if (carries_value((char)op.a[0])) snprintf(b, sizeof b, "arg(%c,%lld)", (char)op.a[0], (long long)op.a[1]); else snprintf(b, sizeof b, "arg(%c)", (char)op.a[0]); break;
     case G_CTOR: snprintf(b, sizeof b, "ctor(%s)", op.a[0] % 3 == 0 ? "varargs" : op.a[0] % 3 == 1 ? "array" : "argvals"); break;
     case G_BOPEN: snprintf(b, sizeof b, "bundle{tt=%lld", (long long)op.a[0]); break;
     case G_BCLOSE: snprintf(b, sizeof b, "}"); break;
